@@ -50,8 +50,13 @@ def bitcount_form(defs, e, depth=0):
         return bitcount_form(defs, inner, depth)
     if k in ("Call", "MCall") and (callee(e) or {}).get("name") == "get_significant_bit_count":
         return "sig", 0
+    if k == "Inl":
+        b = e.get("body") or {}
+        return bitcount_form(defs, b.get("expr") if b.get("k") == "Block" else b, depth + 1) if depth < 5 else (None, 0)
+    if k == "Block" and e.get("expr") is not None:
+        return bitcount_form(defs, e["expr"], depth + 1) if depth < 5 else (None, 0)
     lo = local_of(e)
-    if lo and depth < 3:
+    if lo and depth < 5:
         ds = defs.defs.get(lo[0], [])
         if len(ds) == 1:
             return bitcount_form(defs, ds[0], depth + 1)
@@ -68,7 +73,7 @@ def run(facts, rep, floor=0):
     for p in sorted(facts.methods_of("ckks_encoder::CKKSEncoder")):
         if not facts.items[p]["name"].startswith("encode_internal"):
             continue
-        body = facts.hir[p]
+        body = facts.inlined(p)          # admissibility / word-splitting helpers are read in place
         defs = Defs(body)
         tree = Tree(body)
         # the refusing comparison with total_coeff_modulus_bit_count
@@ -78,7 +83,8 @@ def run(facts, rep, floor=0):
                     y.get("k") == "Macro" and y.get("name") == "panic" for y in walk(x["th"]))):
                 c = strip(x["c"])
                 if c.get("k") == "Bin" and c.get("op") in (">=", ">") and local_of(c["a"]) and \
-                        any(y.get("k") == "MCall" and y.get("name") == "total_coeff_modulus_bit_count" for y in walk(c["b"])):
+                        any(y.get("k") == "MCall" and y.get("name") == "total_coeff_modulus_bit_count" for y in defs.closure(c["b"])) \
+                        and bitcount_form(defs, c["a"])[0] is not None:
                     admit = (x, c)
         if admit is None:
             continue
@@ -115,7 +121,7 @@ def run(facts, rep, floor=0):
                 continue
             cd = strip(x["c"])
             if not (cd.get("k") == "Bin" and cd.get("op") in ("<=", "<") and local_of(cd["a"]) and
-                    local_of(cd["a"])[0] == blid and _lit(cd["b"]) is not None):
+                    (local_of(cd["a"])[0] == blid or bitcount_form(defs, cd["a"]) == (form, c)) and _lit(cd["b"]) is not None):
                 continue
             W = _lit(cd["b"]) - (1 if cd["op"] == "<" else 0)
             # magnitude exponent admitted by the guard: m <= 2^(W - c) for ceil/sig forms, m < 2^(W - c + 1) for floor
